@@ -105,6 +105,9 @@ func (eng) Generate(mode, tier string, r *hx.Rand) []*hx.Case {
 	}
 	for i := 0; i < ndeploy; i++ {
 		count := Pick3(r, 256, r.Range(2, 64), r.Range(2, 1024))
+		if i%4 == 3 {
+			count = r.Range(1, 4) // fewer key groups than operators: some operators own an empty range
+		}
 		steps := make([]deployStep, r.Range(2, 4))
 		for j := range steps {
 			n := r.Range(1, 6)
